@@ -173,6 +173,13 @@ def _zero(e):
     return 0 if v == 0 else None
 
 
+def _addends(e):
+    e = strip(e)
+    if e.k == 'Binary' and e.a['op'] == '+':
+        return _addends(e.c[0]) + _addends(e.c[1])
+    return [e]
+
+
 def guarded_division(chk, cid, prog, p, cfgname):
     """BERR is a maximum of ratios |r_i| / (|op(A)||x| + |b|)_i.  A denominator that is exactly zero means the true residual is zero too and the
     entry must be skipped: every division by an element of the denominator array must sit under a test that excludes zero for that very element
@@ -181,6 +188,7 @@ def guarded_division(chk, cid, prog, p, cfgname):
     berr = f.params[ppos(f, 'berr') - 1][1]
     from ..facts import canon
     n = [0]
+    sym = [0]
 
     def excludes_zero(cond, d, positive):
         for conj in r2.dnf(cond, positive):
@@ -215,7 +223,27 @@ def guarded_division(chk, cid, prog, p, cfgname):
             return
         if x.k == 'Binary' and x.a['op'] == '/':
             dv = strip(x.c[1])
-            if dv.k == 'Index' and root_ref(dv) is not None and root_ref(dv).a.get('name') == 'rwork':
+            nterms, dterms = _addends(x.c[0]), _addends(x.c[1])
+            dref = [t for t in dterms if strip(t).k == 'Index' and root_ref(t) is not None and root_ref(t).a.get('name') == 'rwork']
+            if dref:
+                # guard-term symmetry: a scalar added to the residual in the numerator must be added to the denominator as well, else the
+                # ratio is unbounded (safe1 / rwork[i]) instead of at most one
+                nsc = sorted(canon(t, ids=False) for t in nterms if strip(t).k == 'Ref')
+                dsc = sorted(canon(t, ids=False) for t in dterms if strip(t).k == 'Ref')
+                sym[0] += 1
+                key = '%s:guard-term-symmetric@%d' % (f.name, sym[0])
+                if nsc == dsc:
+                    chk.ok(cid, key, sample=pretty(x)[:90], nontrivial=bool(nsc))
+                else:
+                    chk.violate(cid, key, loc(f, x), f.name,
+                                'the backward-error ratio `%s` adds %s to the numerator but %s to the denominator: with a denominator below the '
+                                'guard threshold the ratio is about guard/denominator, so BERR exceeds one (a componentwise relative backward '
+                                'error never does) for a solution that may be exact' % (pretty(x)[:90], nsc or 'nothing', dsc or 'nothing'),
+                                cfgname=cfgname)
+            if len(dterms) > 1 and dref:
+                n[0] += 1      # the denominator carries a positive guard term: it cannot be zero
+                chk.ok(cid, '%s:denominator-nonzero@%d' % (f.name, n[0]), sample=pretty(x)[:80])
+            elif dv.k == 'Index' and root_ref(dv) is not None and root_ref(dv).a.get('name') == 'rwork':
                 n[0] += 1
                 d = canon(dv)
                 key = '%s:denominator-nonzero@%d' % (f.name, n[0])
